@@ -390,7 +390,7 @@ void profile_mesh(const json& plan, Ctx& ctx) {
 			for (auto& l : labels) {
 				l = int(r.below(uint32_t(leaveEmpty && np > 1 ? np - 1 : np)));
 				if (un && r.chance(0.15)) { l = -1; ctx.probe("label_unassigned"); }
-				else if (oor && r.chance(0.1)) { l = np + int(r.below(2)); ctx.probe("label_out_of_range"); }
+				else if (oor && r.chance(0.1)) { l = np + (jbool(st, "oor_exact", false) ? 0 : int(r.below(2))); ctx.probe("label_out_of_range"); } // (oor_exact: the largest label is exactly one past the list)
 			}
 			if (leaveEmpty && np > 1) ctx.probe("partition_left_empty");
 			w.nif->SetShapePartitions(shape, pinfo, labels);
@@ -406,6 +406,8 @@ void profile_mesh(const json& plan, Ctx& ctx) {
 				std::vector<int> tp;
 				w.nif->GetShapePartitions(shape, pi2, tp);
 				if (tp.size() != labels.size()) ctx.viol("part:label-count", where + ": " + std::to_string(tp.size()) + " labels read back, " + std::to_string(labels.size()) + " given");
+				for (size_t i = 0; i < tp.size(); i++)
+					if (tp[i] >= int(pi2.size())) ctx.viol("part:label-without-partition", where + ": triangle " + std::to_string(i) + " reads back label " + std::to_string(tp[i]) + ", only " + std::to_string(pi2.size()) + " partitions exist");
 				int extra = -1;
 				for (size_t i = 0; i < labels.size(); i++) {
 					if (labels[i] >= 0) { if (tp[i] != labels[i]) ctx.viol("part:label", where + ": triangle " + std::to_string(i) + " label " + std::to_string(tp[i]) + " expected " + std::to_string(labels[i])); }
